@@ -4,20 +4,23 @@
 namespace Naga.Gen.CGuards
 
 def guards : List (Nat × Nat × Nat × Nat × Nat × Nat) := [
-  (0, 0, 2, 1, 0, 72),
-  (0, 0, 3, 2, 0, 96),
-  (0, 0, 4, 3, 0, 52),
+  (0, 0, 2, 1, 0, 96),
+  (0, 0, 3, 2, 0, 128),
+  (0, 0, 4, 3, 0, 82),
   (0, 0, 5, 4, 0, 20),
-  (1, 0, 2, 1, 0, 72),
-  (1, 0, 3, 2, 0, 96),
-  (1, 0, 4, 3, 0, 52),
+  (0, 0, 8, 7, 0, 6),
+  (1, 0, 2, 1, 0, 96),
+  (1, 0, 3, 2, 0, 128),
+  (1, 0, 4, 3, 0, 82),
   (1, 0, 5, 4, 0, 20),
-  (1, 1, 2, 2, 1, 68),
-  (1, 1, 3, 3, 1, 88),
-  (1, 1, 4, 4, 1, 52),
-  (1, 1, 5, 5, 1, 16)
+  (1, 0, 8, 7, 0, 6),
+  (1, 1, 2, 2, 1, 92),
+  (1, 1, 3, 3, 1, 120),
+  (1, 1, 4, 4, 1, 82),
+  (1, 1, 5, 5, 1, 16),
+  (1, 1, 8, 8, 1, 6)
 ]
 
-def occurrences : Nat := 704
+def occurrences : Nat := 980
 
 end Naga.Gen.CGuards
